@@ -49,7 +49,6 @@ def _(self, cost_volume):
     requires("window", self._window_size >= 1, cost_volume.shape[1] >= self._window_size, cost_volume.shape[2] >= self._window_size)
     assigns()
     raises_never()
-    option(no_fuzz=True)
     ensures("shape", result.shape[0] == cost_volume.shape[0] and result.shape[1] == cost_volume.shape[1] - (self._window_size - 1)
             and result.shape[2] == cost_volume.shape[2] - (self._window_size - 1))
     ensures("window_sum", all(
@@ -76,7 +75,7 @@ def _(self, point_p, point_q, img_left, img_right):
              point_p[1] - point_p[0] == point_q[1] - point_q[0], img_left["im"].data.shape[0] == img_right["im"].data.shape[0])
     assigns()
     raises_never()
-    option(lazy_slices=True, no_fuzz=True)
+    option(lazy_slices=True)
     ensures("shape", result.shape[0] == img_left["im"].data.shape[0] and result.shape[1] == point_p[1] - point_p[0])
     ensures("absolute_difference", all(
         eq(result[y, i], abs(img_left["im"].data[y, point_p[0] + i] - img_right["im"].data[y, point_q[0] + i]))
@@ -92,7 +91,7 @@ def _(self, point_p, point_q, img_left, img_right):
              point_p[1] - point_p[0] == point_q[1] - point_q[0], img_left["im"].data.shape[0] == img_right["im"].data.shape[0])
     assigns()
     raises_never()
-    option(lazy_slices=True, no_fuzz=True, abstract_square=True)
+    option(lazy_slices=True, abstract_square=True)
     ensures("shape", result.shape[0] == img_left["im"].data.shape[0] and result.shape[1] == point_p[1] - point_p[0])
     ensures("squared_difference", all(
         eq(result[y, i], (img_left["im"].data[y, point_p[0] + i] - img_right["im"].data[y, point_q[0] + i]) ** 2)
@@ -146,7 +145,7 @@ def _(self, img_left, img_right, cost_volume):
                  for k in range(cost_volume.coords["disp"].data.shape[0])))
     assigns(cost_volume)
     raises_never()
-    option(lazy_slices=True, no_fuzz=True, budget=4, abstract_square=True)
+    option(lazy_slices=True, budget=4, abstract_square=True)
     ensures("type_measure", result.attrs["type_measure"] == "min")
     ensures("shape", result["cost_volume"].data.shape[0] == img_left["im"].data.shape[0]
             and result["cost_volume"].data.shape[1] == img_left["im"].data.shape[1]
@@ -190,3 +189,67 @@ def _(self, img_left, img_right, cost_volume):
               all(isnan(cv_enlarge[k, cc, rr])
                   for k in range(disp_index, disparity_range.shape[0]) for cc in range(img_left["im"].data.shape[1] + 2 * offset_row_col)
                   for rr in range(img_left["im"].data.shape[0] + 2 * offset_row_col)))
+
+
+@sampler("pandora.matching_cost.sad_ssd.SadSsd.compute_cost_volume")
+def _(rng):
+    import xarray as xr
+    from pandora import matching_cost
+    from pandora.img_tools import add_disparity
+    w = int([3, 3, 5][rng.integers(0, 3)])
+    h, wd = int(rng.integers(w, w + 4)), int(rng.integers(w, w + 5))
+    c0 = int(rng.integers(0, 3))
+    attrs = {"no_data_img": -9999, "valid_pixels": 0, "no_data_mask": 1, "crs": None, "transform": None}
+
+    def img():
+        ds = xr.Dataset({"im": (["row", "col"], (rng.integers(0, 40, size=(h, wd)) / 4.0).astype(np.float32))},
+                        coords={"row": np.arange(h), "col": np.arange(c0, c0 + wd)})
+        ds.attrs = dict(attrs)
+        return ds
+    left, right = img(), img()
+    dmin = int(rng.integers(-3, 2))
+    dmax = dmin + int(rng.integers(0, 4))
+    left.pipe(add_disparity, disparity=[dmin, dmax], window=None)
+    method = ["sad", "ssd"][rng.integers(0, 2)]
+    mc = matching_cost.AbstractMatchingCost(**{"matching_cost_method": method, "window_size": w, "subpix": 1})
+    grid = mc.allocate_cost_volume(left, (left["disparity"].sel(band_disp="min"), left["disparity"].sel(band_disp="max")))
+    return {"self": mc, "img_left": left, "img_right": right, "cost_volume": grid}
+
+
+@sampler("pandora.matching_cost.sad_ssd.SadSsd.pixel_wise_aggregation")
+def _(rng):
+    from pandora import matching_cost
+    w = int([1, 3, 5][rng.integers(0, 3)])
+    mc = matching_cost.AbstractMatchingCost(**{"matching_cost_method": "sad", "window_size": w, "subpix": 1})
+    nd, nx, ny = int(rng.integers(1, 4)), int(rng.integers(w, w + 4)), int(rng.integers(w, w + 4))
+    cv = (rng.integers(0, 20, size=(nd, nx, ny)) / 2.0).astype(np.float32)
+    cv[rng.random((nd, nx, ny)) < 0.15] = np.nan
+    return {"self": mc, "cost_volume": cv}
+
+
+@sampler("pandora.matching_cost.sad_ssd.SadSsd.ad_cost")
+def _(rng):
+    import xarray as xr
+    from pandora import matching_cost
+    h, wl = int(rng.integers(1, 4)), int(rng.integers(1, 7))
+    left = xr.Dataset({"im": (["row", "col"], (rng.integers(0, 40, size=(h, wl)) / 4.0).astype(np.float32))}, coords={"row": np.arange(h), "col": np.arange(wl)})
+    right = xr.Dataset({"im": (["row", "col"], (rng.integers(0, 40, size=(h, wl)) / 4.0).astype(np.float32))}, coords={"row": np.arange(h), "col": np.arange(wl)})
+    n = int(rng.integers(0, wl + 1))
+    p0 = int(rng.integers(0, wl - n + 1))
+    q0 = int(rng.integers(0, wl - n + 1))
+    mc = matching_cost.AbstractMatchingCost(**{"matching_cost_method": "sad", "window_size": 1, "subpix": 1})
+    return {"self": mc, "point_p": (p0, p0 + n), "point_q": (q0, q0 + n), "img_left": left, "img_right": right}
+
+
+@sampler("pandora.matching_cost.sad_ssd.SadSsd.sd_cost")
+def _(rng):
+    import xarray as xr
+    from pandora import matching_cost
+    h, wl = int(rng.integers(1, 4)), int(rng.integers(1, 7))
+    left = xr.Dataset({"im": (["row", "col"], (rng.integers(0, 40, size=(h, wl)) / 4.0).astype(np.float32))}, coords={"row": np.arange(h), "col": np.arange(wl)})
+    right = xr.Dataset({"im": (["row", "col"], (rng.integers(0, 40, size=(h, wl)) / 4.0).astype(np.float32))}, coords={"row": np.arange(h), "col": np.arange(wl)})
+    n = int(rng.integers(0, wl + 1))
+    p0 = int(rng.integers(0, wl - n + 1))
+    q0 = int(rng.integers(0, wl - n + 1))
+    mc = matching_cost.AbstractMatchingCost(**{"matching_cost_method": "ssd", "window_size": 1, "subpix": 1})
+    return {"self": mc, "point_p": (p0, p0 + n), "point_q": (q0, q0 + n), "img_left": left, "img_right": right}
